@@ -141,6 +141,25 @@ def run(ctx, spec):
     for dst, text, v in chain:
         lines.append('%s %s' % (dst, text))
         exp.append(('%s.chain' % f, 'ok ' + h32(v), ('chain', text.split()[0], a, b, c, d), True, 'chain'))
+    # consecutive calls in the two fields on operands with IDENTICAL internal (Montgomery) limbs: a memo keyed on the limbs alone
+    # would hand the second call the first call's answer
+    for _ in range(3):
+        m = (gen.limb_value(rng, r) if rng.random() < 0.5 else rng.getrandbits(254)) % r or 1
+        pair = [('fr', r), ('fq', q)]
+        if rng.random() < 0.5:
+            pair.reverse()
+        opn = rng.choice(['inverse', 'inverse', 'pow', 'neg'])
+        for f2, p2 in pair:
+            v = rm.unmont(m, p2)
+            if opn == 'inverse':
+                lines.append('_ %s.inverse %s' % (f2, h32(v)))
+                exp.append(('%s.inverse' % f2, 'ok ' + h32(pow(v, -1, p2)), ('alias-inv', f2, v), True, 'cross-field-alias'))
+            elif opn == 'pow':
+                lines.append('_ %s.pow %s %s' % (f2, h32(v), h32(3)))
+                exp.append(('%s.pow' % f2, 'ok ' + h32(pow(v, 3, p2)), ('alias-pow', f2, v), True, 'cross-field-alias'))
+            else:
+                lines.append('_ %s.neg.v %s' % (f2, h32(v)))
+                exp.append(('%s.neg.v' % f2, 'ok ' + h32((-v) % p2), ('alias-neg', f2, v), True, 'cross-field-alias'))
     ans = ctx.run(lines)
     for line, an, (cls, want, key, nontriv, pc) in zip(lines, ans, exp):
         if check(ctx, an, want, cls.split('/')[0], cls, key, line=line, nontrivial=nontriv):
